@@ -22,7 +22,7 @@ for p in sorted(glob.glob(os.path.join(ROOT, 'seeded', '*', 'meta.json'))):
                        for k, v in (m.get('checks') or {}).items())
     print('| `%s` | %s | %s | %s |' % (m['id'], m['breaks_property'],
                                        m.get('confirmed'), caught))
-res = os.path.join(ROOT, '.work', 'selftest_results.json')
+res = os.path.join(ROOT, 'seeded', 'selftest_results.json')
 if os.path.exists(res):
     print()
     print('| own mutation | property | repo tests | check |')
